@@ -23,8 +23,12 @@ with ≈ as `Spec/Perm.lean` says.  Proved here:
 
   write_osu_perm           the osu writer: both written texts read back (C01's whole-text reader model) as the same
                            chart up to row order                   hyp: those of C01's `read_writeText`
-  write_sm_perm_partial    the StepMania writer: same multiset of object slots and of `#BPMS` pairs for any order of
-                           the tempo rows and of the notes          hyp: C10's domain, as C03's `written_beats_exact`
+  write_sm_perm            the StepMania writer: same measures cell by cell, same header, same multiset of `#BPMS` pairs
+                           (`fillMeasure_perm`: a measure's grid is a function of the SET of its cells)
+                                                                   hyp: C10's domain as C03's `written_beats_exact`, `MeasureOk`
+  write_bms_perm           the BMS writer: the by-the-book objects of the written cells on the note channels are the same
+                           multiset, the tempo objects sort to the same tempo list (lines may differ: `find_lcm`)
+                                                                   hyp: C05's domain, `BmsOk`
   write_qua_perm           the Quaver writer: both written documents denote (by the book) the same chart up to
                            row order                               hyp: those of C06's `qua_write_denotes`
 
